@@ -8,6 +8,7 @@ accumulate_*_deltas, read_*_deltas), skrifa `outline/glyf/deltas.rs`, `outline/g
 import FontVerif.Model.GvarApply
 import FontVerif.Lemmas.GvarApply
 import FontVerif.Lemmas.GvarMulti
+import FontVerif.Lemmas.GvarSum
 import FontVerif.Lemmas.GvarScalar
 import FontVerif.Props.C10Data
 set_option linter.unusedVariables false
@@ -145,19 +146,22 @@ theorem interpolate_fixed_error_bound (p1 p2 c e1 e2 M E : Int)
   obtain ⟨d, e⟩ := interpDist_lt_den p1 e1 p2 e2 c
   exact ⟨a, b, c', d, e⟩
 
-/- FULL STATEMENT (what the property asks): for every simple glyph (any number of contours) and every
-location, skrifa's adjusted point = point + to_i32(T) with |T − 65536 · Σ_t S_t · I_t(k)| ≤
-Σ_t (k_t/2 · |I_t(k)| + (den_t − 1)/2), where S_t is the exact tent scalar, I_t(k) the
-specification's inferred delta of tuple t at point k.  PROVED: every ingredient for all inputs —
-the scalar bound (`tuple_scalar_error_bound`), exact scaling (`scaled_delta_exact`), the buffer after
-`accumulate_sparse_deltas` (`accumulate_sparse_pointwise`), the per-axis interpolation bound
-(`interpolate_fixed_error_bound`), per-tuple accumulation (`simple_sparse_tuple_adds`), the final
-rounding (`final_rounding`) — and their composition against the specification per tuple for ANY list
-of contours (`apply_deltas_eq_spec` below; `apply_deltas_eq_spec_partial` is its one-contour case,
-kept because the induction uses it).  STILL MISSING: the summation over several tuples as one closed
-formula (each tuple's contribution is added to the running 16.16 deltas by wrapping addition in the
-order of the tuples; the fold is modelled — `simpleGlyph` — and tied bit exact by correspondence). -/
-/-- **`apply_deltas_eq_spec_partial` — one tuple, one contour (+ the four phantom points).**
+/- HEADLINE (what the property asks): for every simple glyph (any number of contours), every list of
+tuples and every location, skrifa's adjusted coordinate = point + to_i32(T) lies within
+1/2 + Σ_t (den_t − 1)/131072 font units of  point + Σ_t (s_t/65536) · I_t(k),  I_t(k) = num_t/den_t the
+specification's explicit-or-inferred delta of tuple t at point k.  It is reached by composing, all
+proved for all inputs: `simple_glyph_closed_formula` (the fold over the tuples is the ordered sum of
+the per-tuple contributions mod 2³², the plain sum without wrap; `tuple_order_irrelevant`),
+`apply_deltas_eq_spec` (one tuple, any list of contours: contribution vs specification;
+`apply_deltas_eq_spec_one_contour` is its one-contour case used by the induction),
+`accumulate_sparse_pointwise` + `scaled_delta_exact` (the working buffer the per-tuple theorem starts
+from), `applied_coordinate_within_rounding` (sum of the per-tuple bounds + the final rounding), and
+`tuple_scalar_error_bound` for the exact tent scalars.  The interface between them is explicit: the
+per-tuple relation `Term.Ok` (= the conclusion of `apply_deltas_eq_spec`) and `TupleContribution`
+(what the model's step does) are hypotheses / conclusions of the respective theorems; the identity
+"buffer after `accSparse` = `workOf points (ds · s)`" for a concrete byte stream is given pointwise by
+`accumulate_sparse_pointwise`, not as one list equality. -/
+/-- **`apply_deltas_eq_spec_one_contour` — one tuple, one contour (+ the four phantom points).**
 `points` = the `n` contour points then the phantom points (coordinates within `±M`); the tuple lists
 explicit deltas `ds` (zero where `has` is false, magnitudes within `Δ`) and is applied with the
 16.16 scalar `0 < s ≤ 65536`; `131072 M + 4·Δ·65536 + 65536 < 2³¹`.  The working buffer after
@@ -172,7 +176,7 @@ where `num / den = inferSpec points ds has k` is the SPECIFICATION's inferred de
 with one explicit point and for points clamped to a reference; `den` = the coordinate distance of
 the two reference points for interpolated points (error ≤ (den−1)/2 units of 2⁻¹⁶).  The phantom
 points keep their working values (their delta is explicit or zero). -/
-theorem apply_deltas_eq_spec_partial (n : Nat) (hn : 0 < n) (points ds : List Iup.Pt) (has : List Bool) (s : Int)
+theorem apply_deltas_eq_spec_one_contour (n : Nat) (hn : 0 < n) (points ds : List Iup.Pt) (has : List Bool) (s : Int)
     (hpl : points.length = n + 4) (hhl : has.length = n + 4) (hdl : ds.length = n + 4)
     (M Δ : Int) (hM : 0 ≤ M ∧ M ≤ 16383) (hΔ : 0 ≤ Δ) (hs : 0 < s ∧ s ≤ 65536)
     (hfit : 131072 * M + 4 * (Δ * 65536) + 65536 ≤ 2147483647)
@@ -229,7 +233,7 @@ theorem apply_deltas_eq_spec_partial (n : Nat) (hn : 0 < n) (points ds : List Iu
 /-- **`apply_deltas_eq_spec` — one tuple, ANY list of contours.**  `ends` are the contour end points
 (`ContoursWF`: ascending, inside the glyph; contours are `0 ..= e₀`, `e₀+1 ..= e₁`, …), the points
 from `endOf 0 ends` on (the phantom points) belong to no contour.  With the hypotheses of
-`apply_deltas_eq_spec_partial` (coordinates within `±M`, deltas within `±Δ`, scalar `0 < s ≤ 65536`,
+`apply_deltas_eq_spec_one_contour` (coordinates within `±M`, deltas within `±Δ`, scalar `0 < s ≤ 65536`,
 nothing wraps), `interpolate_deltas` over the whole glyph succeeds, and by induction over the
 contour list (`glyphLoop_contribution`: a contour at `first ..= last` is processed exactly like the
 same contour moved to the front — `readerContourCalls_shift`, `applyCall_shift` — changes only its own
@@ -349,11 +353,108 @@ theorem final_rounding (T R : Int) (hT : -2147483648 ≤ T ∧ T < 2147450880) :
   · intro h; subst h; omega
   · intro h; omega
 
+/-! ### all tuples: the closed formula, the order, the headline bound -/
+
+/-- **the fold over the tuples is a sum.**  skrifa's `simple_glyph` (deltas.rs: `compute_deltas_for_glyph`
+visits `var_data.active_tuples_at(coords)` in tuple order; a tuple with deltas for all points goes
+through `accumulate_dense_deltas`, any other through the closure `*delta += *iup_point - point`) returns,
+whenever it returns `Ok`, for every point `k` exactly
+
+  `delta_k = ( Σ_t c_t(k).x  mod 2³² , Σ_t c_t(k).y  mod 2³² )`   (wrapping 16.16, `wrapI32`),
+
+one contribution list `c_t` per active tuple, in order, each characterised by `TupleContribution`:
+the scaled listed deltas for an all-points tuple, `working − point` after
+`accumulate_sparse_deltas` + `interpolate_deltas` on a FRESH buffer with CLEARED flags for the others
+(this is where `apply_deltas_eq_spec` applies).  When the column sum fits an i32 nothing wraps and
+`delta_k` IS the sum. -/
+theorem simple_glyph_closed_formula (ax : Nat) (shared : List (List Int)) (bytes : List Nat)
+    (coords : List Int) (points : List GvarApply.Pt) (ends : List Nat) (g : GlyphRead) (deltas : List GvarApply.Pt)
+    (hr : readGlyph ax bytes = some g) (hne : activeTuples ax shared g coords ≠ [])
+    (h : simpleGlyph ax shared (some bytes) coords points ends = some deltas) :
+    ∃ cs : List (List GvarApply.Pt), cs.length = (activeTuples ax shared g coords).length ∧
+      (∀ p ∈ (activeTuples ax shared g coords).zip cs, TupleContribution points ends g.sharedPts p.1 p.2) ∧
+      deltas.length = points.length ∧
+      ∀ k, k < points.length →
+        deltas.getD k (0, 0) = (wrapI32 (colX cs k), wrapI32 (colY cs k)) ∧
+        ((-2147483648 ≤ colX cs k ∧ colX cs k < 2147483648) → (deltas.getD k (0, 0)).1 = colX cs k) ∧
+        ((-2147483648 ≤ colY cs k ∧ colY cs k < 2147483648) → (deltas.getD k (0, 0)).2 = colY cs k) := by
+  unfold simpleGlyph at h
+  split at h
+  · cases h
+  · simp only [hr] at h
+    have hz : (points.map fun _ => ((0 : Int), (0 : Int))).length = points.length := by simp
+    obtain ⟨cs, l1, l2, l3⟩ := foldl_steps points.length
+      (fun d (ts : RawTuple × Int) => if ts.1.allPoints g.sharedPts then accDense (ts.1.ptsAndDeltas g.sharedPts).2 ts.2 d
+        else simpleSparseTuple points ends ts.1 g.sharedPts ts.2 d)
+      (TupleContribution points ends g.sharedPts)
+      (fun acc a acc' hl hs => step_contribution points ends g.sharedPts acc a acc' hl hs)
+      (activeTuples ax shared g coords) _ deltas hz h
+    have hcs : cs ≠ [] := by
+      intro hc; subst hc; simp at l1; exact hne (List.length_eq_zero_iff.mp l1.symm)
+    have hzero : (points.map fun _ => ((0 : Int), (0 : Int))) = (List.range points.length).map fun _ => ((0 : Int), (0 : Int)) := by
+      apply List.ext_getElem (by simp)
+      intro i h1 h2; simp
+    refine ⟨cs, l1, l2, by rw [l3, foldl_stepAdd_length, hz], fun k hk => ?_⟩
+    have := accumulate_closed cs points.length k hk hcs
+    rw [← hzero, ← l3] at this
+    refine ⟨this, fun hx => ?_, fun hy => ?_⟩
+    · rw [this]; exact wrapI32_of_in hx.1 hx.2
+    · rw [this]; exact wrapI32_of_in hy.1 hy.2
+
+/-- **the order of the tuples does not matter** (wrapping addition is commutative and associative
+mod 2³²): accumulating the same contributions in any other order gives the same deltas, entry by
+entry — with or without wrap-around. -/
+theorem tuple_order_irrelevant (cs cs' : List (List GvarApply.Pt)) (h : cs.Perm cs') (np k : Nat)
+    (hk : k < np) (hne : cs ≠ []) :
+    (cs.foldl stepAdd ((List.range np).map fun _ => ((0 : Int), (0 : Int)))).getD k (0, 0)
+      = (cs'.foldl stepAdd ((List.range np).map fun _ => ((0 : Int), (0 : Int)))).getD k (0, 0) := by
+  have hne' : cs' ≠ [] := by
+    intro hc; subst hc; exact hne (List.Perm.eq_nil h)
+  rw [accumulate_closed cs np k hk hne, accumulate_closed cs' np k hk hne', colX_perm cs cs' h, colY_perm cs cs' h]
+
+/-- **headline: every output coordinate is within the stated rounding error of
+`original + Σ_t scalar_t · (explicit or IUP-inferred delta_t)`.**  One axis of one point.  `terms`
+lists, for every active tuple in order, its 16.16 contribution `δ_t` (a column of
+`simple_glyph_closed_formula`), its 16.16 scalar `s_t` and the specification's inferred delta
+`num_t / den_t`, related by `Term.Ok` — which is exactly the conclusion of `apply_deltas_eq_spec`
+for a tuple with explicit points (its hypothesis on the working buffer being
+`accumulate_sparse_pointwise` + `scaled_delta_exact`) and holds with `den = 1` for an all-points
+tuple (`scaled_delta_exact`).  No-wrap hypothesis summed over the tuples: the total `T = Σ_t δ_t`
+lies in `[-2³¹, 2³¹ - 32768)` — e.g. `T` tuples each with `|δ_t| ≤ B` and `T·B < 2³¹ - 32768`.  Then the
+scaler's unscaled coordinate `p + Fixed::to_i32(T)` (skrifa glyf/mod.rs `load_simple`:
+`*unscaled += delta.map(Fixed::to_i32)`, `Fixed::to_i32 = (x + 0x8000) >> 16`; the scaled path
+rounds with `Fixed::to_f26dot6 = (x + 0x200) >> 10` instead) satisfies
+
+  `| (p + R) − ( p + Σ_t (s_t / 65536) · num_t / den_t ) |  ≤  1/2 + Σ_t (den_t − 1) / 131072`,
+
+`1/2` being the final rounding and `(den_t − 1)/131072` font units the 16.16 interpolation error of
+tuple `t` (zero for explicit, shifted and clamped points).  With `tuple_scalar_error_bound`
+(`|s_t − 65536·S_t| ≤ k_t/2`) the same holds against the exact tent scalars `S_t` with
+`Σ_t k_t·|num_t/den_t| / 131072` added. -/
+theorem applied_coordinate_within_rounding (terms : List Term) (hok : ∀ t ∈ terms, t.Ok) (p : Int)
+    (hfit : -2147483648 ≤ (terms.map (·.δ)).sum ∧ (terms.map (·.δ)).sum < 2147450880) :
+    |(((p + Fixed.toI32 (terms.map (·.δ)).sum : Int) : ℚ))
+        - ((p : ℚ) + (terms.map fun t => (t.s : ℚ) * ((t.num : ℚ) / t.den)).sum / 65536)|
+      ≤ 1 / 2 + (terms.map fun t => ((t.den : ℚ) - 1) / 2).sum / 65536 := by
+  have hsum := sum_near_rat terms hok
+  generalize (terms.map (·.δ)).sum = T at hsum hfit
+  generalize (terms.map fun t => (t.s : ℚ) * ((t.num : ℚ) / t.den)).sum = E at hsum
+  generalize (terms.map fun t => ((t.den : ℚ) - 1) / 2).sum = B at hsum
+  have hR : 65536 * Fixed.toI32 T - 32768 ≤ T ∧ T < 65536 * Fixed.toI32 T + 32768 :=
+    (final_rounding T (Fixed.toI32 T) hfit).mp rfl
+  generalize Fixed.toI32 T = R at hR
+  have h1 : (65536 : ℚ) * R - 32768 ≤ T := by exact_mod_cast hR.1
+  have h2 : (T : ℚ) < 65536 * R + 32768 := by exact_mod_cast hR.2
+  obtain ⟨h3, h4⟩ := abs_le.mp hsum
+  push_cast
+  rw [abs_le]
+  constructor <;> linarith
+
 /-! ### composite glyphs: component offsets and phantom points, no inference -/
 
 /-- **`composite_glyph`, one sparse tuple**: every component / phantom point the tuple lists gets
 `(x · s, y · s)` added in 16.16 — the exact integer products (no inference, no rounding: `den = 1`
-in the terms of `apply_deltas_eq_spec_partial`); unlisted entries are untouched.  The scaler then adds
+in the terms of `apply_deltas_eq_spec_one_contour`); unlisted entries are untouched.  The scaler then adds
 `Fixed::to_i32` of the accumulated value to the component's offset and to the phantom points
 (`final_rounding`). -/
 theorem composite_deltas_exact (t : RawTuple) (sp : Option (List Nat)) (s : Int)
